@@ -89,13 +89,14 @@ NT = {
             'one evaluation = one tree mixing checked and unchecked nodes (free / checked-twin / nested / transplant shapes); distinct = distinct op lists; non-trivial = at least one judgement specific to unchecked nodes was made'),
 }
 
-for _pid, _q, _t in (('C01', 6000, 60000), ('C06', 6000, 60000), ('C07', 6000, 60000), ('C12', 6000, 60000),
-                     ('C19', 6000, 60000), ('C04', 4000, 40000), ('C10', 3000, 30000), ('C11', 3000, 30000),
-                     ('C13', 2000, 20000), ('C14', 2000, 20000), ('C15', 4000, 40000), ('C16', 3000, 30000),
-                     ('C18', 4000, 40000)):
+for _pid, _q, _t in (('C01', 12000, 120000), ('C06', 15000, 150000), ('C07', 12000, 120000), ('C12', 12000, 120000),
+                     ('C19', 12000, 120000), ('C04', 8000, 60000), ('C10', 3000, 30000), ('C11', 3000, 30000),
+                     ('C13', 2000, 20000), ('C14', 2500, 25000), ('C15', 8000, 80000), ('C16', 3000, 30000),
+                     ('C18', 8000, 80000)):
     reg(Prop(_pid, {'quick': _q, 'thorough': _t}, {'quick': 100, 'thorough': 1500},
              NT[_pid][1] if _pid in NT else RULE_HIST, nontrivial=NT[_pid][0] if _pid in NT else nt_structure,
-             cfg={'thorough': {'all_attrs': True}} if _pid == 'C04' else None))
+             cfg={'thorough': {'all_attrs': True}} if _pid == 'C04' else
+             {'quick': {}, 'thorough': {'nsteps_max': 36, 'long_n': 60, 'max_ops': 140}}))
 
 
 def _c17_extra(prop, tier, seed, agg):
@@ -135,7 +136,7 @@ RULE_C20 = ('one evaluation = one schedule of one program pair executed in a fre
             'family), or a seeded multi-switch schedule; distinct = distinct switch-point lists (thread, file:line, '
             'per-thread line count); non-trivial = at least one thread switch actually happened inside library code')
 reg(Prop('C20', {'quick': 0, 'thorough': 0}, {'quick': 100, 'thorough': 1500}, RULE_C20, level='fault_enumeration', mode='threads',
-         cfg={'quick': {'pairs': 3, 'k_per_pair': 100, 'pct_per_pair': 20, 'small': True, 'window_cap': 2000}, 'thorough': {'pairs': 6, 'all_k_pairs': 2, 'k_per_pair': 2000, 'pct_per_pair': 400}}))
+         cfg={'quick': {'pairs': 3, 'k_per_pair': 100, 'pct_per_pair': 20, 'small': True, 'window_cap': 2000, 'triples': 1, 'pct_per_triple': 40}, 'thorough': {'pairs': 6, 'all_k_pairs': 2, 'k_per_pair': 2000, 'pct_per_pair': 400, 'triples': 3, 'pct_per_triple': 300}}))
 
 
 get('C16').det_sample = 250      # C16 also judges serialisation across hash seeds (determinism across processes)
